@@ -76,11 +76,12 @@ fn main() {
         let txns: Mutex<Vec<Txn>> = Mutex::new(vec![]);
         let reads: Mutex<Vec<Read>> = Mutex::new(vec![]);
         let rctr = AtomicU64::new(0);
+        let ncommitted = AtomicU64::new(0);
         let panics = AtomicU64::new(0);
         let dbr: &Database = &db;
         std::thread::scope(|sc| {
             for w in 0..nw {
-                let (txns, next_tid, remaining, tick, panics) = (&txns, &next_tid, &remaining, &tick, &panics);
+                let (txns, next_tid, remaining, tick, panics, ncommitted) = (&txns, &next_tid, &remaining, &tick, &panics, &ncommitted);
                 let mut rng = StdRng::seed_from_u64(seed * 1000 + run * 10 + w as u64);
                 sc.spawn(move || {
                     loop {
@@ -144,6 +145,7 @@ fn main() {
                                 wt.abort().expect("abort");
                             }
                             let d = tick();
+                            ncommitted.fetch_add(1, Ordering::SeqCst);
                             if commit {
                                 evs.push(json!({"e": "cbegin"}));
                                 evs.push(json!({"e": "cend", "r": ok(json!(0))}));
@@ -162,7 +164,7 @@ fn main() {
                 });
             }
             for r in 0..nr {
-                let (reads, done, tick, rctr, cx, panics) = (&reads, &done, &tick, &rctr, &cx, &panics);
+                let (reads, done, tick, rctr, cx, panics, ncommitted) = (&reads, &done, &tick, &rctr, &cx, &panics, &ncommitted);
                 let mut rng = StdRng::seed_from_u64(seed * 7777 + run * 10 + r as u64);
                 sc.spawn(move || {
                     while !done.load(Ordering::SeqCst) {
@@ -178,7 +180,12 @@ fn main() {
                                 std::hint::spin_loop();
                             }
                             if rng.random_range(0..3) == 0 {
-                                std::thread::sleep(std::time::Duration::from_micros(rng.random_range(50..2000)));
+                                // keep the snapshot while several more transactions end (their freed pages get reused)
+                                let target = ncommitted.load(Ordering::SeqCst) + rng.random_range(2..10);
+                                let t0 = std::time::Instant::now();
+                                while ncommitted.load(Ordering::SeqCst) < target && !done.load(Ordering::SeqCst) && t0.elapsed() < std::time::Duration::from_millis(200) {
+                                    std::thread::yield_now();
+                                }
                             }
                             dumps.push(json!({"tables": dump_tables(&rt, cx).expect("dump"), "psp": []}));
                             drop(rt);
